@@ -1665,19 +1665,20 @@ def _cycles_without_progress(f):
             if not same:
                 progress |= {bb for bb, t in pops}
         # counters: locals incremented by a constant inside the loop and assigned nowhere else in it but from that sum or a constant
-        incs = {}
+        incs, dirs = {}, {}
         for bb, j, st in f.stmts():
             rv = st["rv"]
             if bb in body and rv["k"] == "bin" and rv["op"] in ("Add", "AddWithOverflow", "AddUnchecked", "Sub", "SubWithOverflow", "SubUnchecked"):
                 pa, cb = op_place(rv["a"]), op_const(rv["b"])
                 if pa is not None and not pa["p"] and cb is not None and cb.get("int", 0) > 0:
                     incs[st["lhs"]["l"]] = pa["l"]
+                    dirs.setdefault(pa["l"], set()).add("-" if rv["op"].startswith("Sub") else "+")
         counters = set()
         for bb, j, st in f.stmts():
             rv = st["rv"]
             if bb in body and rv["k"] == "use" and not st["lhs"]["p"]:
                 pa = op_place(rv["a"])
-                if pa is not None and pa["l"] in incs and incs[pa["l"]] == st["lhs"]["l"]:
+                if pa is not None and pa["l"] in incs and incs[pa["l"]] == st["lhs"]["l"] and len(dirs.get(st["lhs"]["l"], ())) == 1:
                     counters.add(st["lhs"]["l"])
         for bb in sorted(body):
             t = f.blocks[bb]["term"]
